@@ -17,7 +17,11 @@ RULE = ("one case = one DAG (edges in construction order, each added through a r
         "edge set on <=4 labelled nodes, every construction order of edge sets with <=3 edges, shuffled orders "
         "above, every start node. Random: DAGs with 5..10 nodes, up to 4 parents per node, every start node, some "
         "disconnected (go_to refusal); 'fan' DAGs (a centre with 3-4 parents and/or children, each owning a private appendix). Corpus: docstring DAG, diamond, 3- and 4-parent nodes whose last parent "
-        "leads to otherwise unreachable edges. Non-trivial = at least 3 edges; distinct = distinct protocol lines")
+        "leads to otherwise unreachable edges. History-built DAGs (about 40 % of the random cases, every corpus DAG, every "
+        "edge set on 3 nodes): the edge insertions are interleaved with warm-up queries, refused cycle-closing "
+        "assignments, assignments rolled back because a user hook (which reads ancestors/descendants/siblings, as hooks "
+        "may) raises before or after the assignment, and edges added and deleted again; the model only sees the final "
+        "edge list. Name schemes include names that collide under concatenation with a joiner (a-b + c vs a + b-c). Non-trivial = at least 3 edges; distinct = distinct protocol lines")
 EXHAUSTIVE = {
     "quick": "all acyclic edge sets on 1..4 labelled nodes (1+3+25+543) x every start node; every construction order for edge sets with <=3 edges, 2 orders above",
     "thorough": "all acyclic edge sets on 1..4 labelled nodes x every start node; every construction order for edge sets with <=4 edges, 6 orders above",
@@ -34,12 +38,15 @@ def _line(d):
     return "%s s=%d iter=%d" % (U.dag_tokens(d), d["start"], 1 if d["iter"] else 0)
 
 
-def mk_case(n, edges, start, rng, names=None, tags=()):
+def mk_case(n, edges, start, rng, names=None, tags=(), noise=0):
     edges = [list(e) for e in edges]
     d = {"n": n, "edges": edges, "start": start,
          "modes": "".join(rng.choice("PPCCRL") for _ in edges),
          "names": names or ["n%d" % i for i in range(n)],
          "iter": U.weakly_connected(n, edges)}
+    if noise:
+        d["noise"] = U.add_noise(rng, n, edges, noise)
+        tags = tuple(tags) + ("history",) + tuple(sorted({"h:" + st[1] for st in d["noise"]}))
     return Case(_line(d), d, tags)
 
 
@@ -72,6 +79,22 @@ def gen(rng: random.Random, tier: str):
     for n, edges in CORPUS:
         for s in range(n):
             cases.append(mk_case(n, edges, s, rng, tags=("corpus",)))
+            cases.append(mk_case(n, edges, s, rng, tags=("corpus",), noise=4))
+            cases.append(mk_case(n, edges, s, rng, names=U.concat_names(rng, n), tags=("corpus", "concat-names")))
+    # names that collide under concatenation, for every joiner
+    for j in U.JOINERS:
+        for _ in range(2 if tier == "quick" else 10):
+            n, edges, names = U.collide_dag(rng, j)
+            for s in range(n):
+                cases.append(mk_case(n, edges, s, rng, names=names, tags=("collide-names",)))
+    # history-built small DAGs: every acyclic edge set on 3 nodes, a few on 4, reached through noisy histories
+    for n in (3, 4):
+        sets = list(U.all_acyclic_edge_sets(n))
+        if n == 4:
+            sets = rng.sample(sets, 60 if tier == "quick" else 300)
+        for es in sets:
+            if es:
+                cases.append(mk_case(n, es, rng.randrange(n), rng, tags=("enum-history", "n=%d" % n), noise=3))
     perm_upto = 3 if tier == "quick" else 4
     extra = 1 if tier == "quick" else 5
     for n in range(1, 5):
@@ -100,7 +123,7 @@ def gen(rng: random.Random, tier: str):
         maxpar = max([sum(1 for e in edges if e[1] == v) for v in range(n)] + [0])
         starts = range(n) if tier == "thorough" or k % 3 == 0 else rng.sample(range(n), 3)
         for s in starts:
-            cases.append(mk_case(n, edges, s, rng, names=names,
+            cases.append(mk_case(n, edges, s, rng, names=names, noise=(rng.randint(2, 6) if rng.random() < 0.4 else 0),
                                  tags=("random", "connected" if U.weakly_connected(n, edges) else "disconnected",
                                        "maxparents=%d" % maxpar)))
     return cases
@@ -135,7 +158,10 @@ def _run(d):
 
 def impl(case):
     d = case.data
-    _ids, _nodes, r = _run(d)
+    try:
+        _ids, _nodes, r = _run(d)
+    except Exception as e:
+        return "build-or-query-failed:" + type(e).__name__
     out = ["iter=" + (U.enc_edges(r["iter"]) if r["iter"] is not None else "skip"),
            "anc=" + core.nats(r["anc"]), "desc=" + core.nats(r["desc"]), "sib=" + core.nats(r["sib"])]
     for t, paths in enumerate(r["go"]):
@@ -174,7 +200,11 @@ def compare(a, b, case):
 # ---------------------------------------------------------------- oracle (model-free)
 def oracle(case):
     d = case.data
-    ids, nodes, r = _run(d)
+    try:
+        ids, nodes, r = _run(d)
+    except Exception as e:
+        return ["building the DAG edge by edge (every edge keeps it acyclic%s) or querying it raised %s: %s"
+                % (", history steps interleaved" if d.get("noise") else "", type(e).__name__, str(e)[:120])]
     n = len(nodes)
     s = d["start"]
     msgs = []
